@@ -726,6 +726,77 @@ def _find_next_loop(loop: ast.While, cfg: CFG | None = None) -> str | None:
     return f"`{v}` is the next hit of `{s_name}.{c.func.attr}(..., {v} + k)` (k >= 1): strictly increasing positions in a finite string that the loop does not rebind, ended by -1"
 
 
+def _worklist_loop(loop: ast.While) -> str | None:
+    """`while L: x = L.pop(); ... L.extend(<children of x>)`: every cycle removes one node and only ever adds parts of the node it
+    removed - a traversal of a finite acyclic structure (the same premise as R20.4's structural descent)."""
+    t = loop.test
+    L = None
+    if isinstance(t, ast.Name):
+        L = t.id
+    elif isinstance(t, ast.Compare) and len(t.ops) == 1 and isinstance(t.left, ast.Call) and ast.unparse(t.left.func) == "len" and len(t.left.args) == 1 and isinstance(t.left.args[0], ast.Name) and isinstance(t.ops[0], ast.Gt) and isinstance(t.comparators[0], ast.Constant) and t.comparators[0].value == 0:
+        L = t.left.args[0].id
+    if L is None:
+        return None
+    pops = [st for st in loop.body if isinstance(st, ast.Assign) and len(st.targets) == 1 and isinstance(st.value, ast.Call) and isinstance(st.value.func, ast.Attribute) and st.value.func.attr in ("pop", "popleft") and isinstance(st.value.func.value, ast.Name) and st.value.func.value.id == L]
+    if len(pops) != 1 or any(isinstance(x, ast.Continue) for b in loop.body[: loop.body.index(pops[0])] for x in ast.walk(b)):
+        return None
+    popped = {x.id for x in ast.walk(pops[0].targets[0]) if isinstance(x, ast.Name)}
+    if not popped:
+        return None
+    # names derived from the popped node: plain attribute reads / iteration targets over them
+    derived = set(popped)
+    changed = True
+    while changed:
+        changed = False
+        for n in ast.walk(ast.Module(body=loop.body, type_ignores=[])):
+            if isinstance(n, (ast.For, ast.comprehension)) and isinstance(n.target, ast.Name) and n.target.id not in derived and _strictly_part_of(n.iter, derived):
+                derived.add(n.target.id)
+                changed = True
+            if isinstance(n, ast.Assign) and len(n.targets) == 1 and isinstance(n.targets[0], ast.Name) and n.targets[0].id not in derived and n is not pops[0] and not isinstance(n.value, ast.Name) and _strictly_part_of(n.value, derived, popped=popped):
+                derived.add(n.targets[0].id)
+                changed = True
+    for n in ast.walk(ast.Module(body=loop.body, type_ignores=[])):
+        if n is pops[0].value:
+            continue
+        if isinstance(n, ast.Call) and isinstance(n.func, ast.Attribute) and isinstance(n.func.value, ast.Name) and n.func.value.id == L:
+            if n.func.attr in ("extend", "append", "appendleft", "extendleft") and len(n.args) == 1 and _strictly_part_of(n.args[0], derived - popped | popped, need_attr=n.func.attr in ("extend", "extendleft") or True, popped=popped):
+                continue
+            return None
+        if isinstance(n, (ast.Assign, ast.AugAssign)) and any(isinstance(x, ast.Name) and x.id == L and isinstance(x.ctx, ast.Store) for x in ast.walk(n)):
+            if isinstance(n, ast.AugAssign) and isinstance(n.op, ast.Add) and _strictly_part_of(n.value, derived, popped=popped):
+                continue
+            return None
+    return f"work list `{L}`: each cycle pops one node and pushes only parts of that node (finite acyclic structure)"
+
+
+def _strictly_part_of(e: ast.AST, derived: set[str], need_attr: bool = True, popped: set[str] | None = None) -> bool:
+    """e denotes a proper part (attribute / element) of a value named in `derived`, or - for names derived by attribute reads or
+    iteration, i.e. already proper parts of the popped node - that value itself; wrappers that only reorder are looked through"""
+    if isinstance(e, ast.Call) and isinstance(e.func, ast.Name) and e.func.id in ("reversed", "list", "tuple", "iter", "sorted") and len(e.args) == 1:
+        return _strictly_part_of(e.args[0], derived, need_attr, popped)
+    if isinstance(e, ast.Attribute):
+        b = e.value
+        while isinstance(b, (ast.Attribute, ast.Subscript)):
+            b = b.value
+        return isinstance(b, ast.Name) and b.id in derived
+    if isinstance(e, ast.Subscript):
+        return _strictly_part_of(e.value, derived, need_attr, popped) or (isinstance(e.value, ast.Name) and e.value.id in derived)
+    if isinstance(e, ast.Name):
+        return e.id in derived and (popped is None or e.id not in popped)
+    if isinstance(e, (ast.ListComp, ast.GeneratorExp)) and len(e.generators) >= 1:
+        d2 = set(derived)
+        for g in e.generators:
+            if not _strictly_part_of(g.iter, d2, need_attr, popped):
+                return False
+            d2 |= {x.id for x in ast.walk(g.target) if isinstance(x, ast.Name)}
+        return _strictly_part_of(e.elt, d2, need_attr, (popped or set()))
+    if isinstance(e, ast.BinOp) and isinstance(e.op, ast.Add):
+        return _strictly_part_of(e.left, derived, need_attr, popped) and _strictly_part_of(e.right, derived, need_attr, popped)
+    if isinstance(e, (ast.List, ast.Tuple)):
+        return all(_strictly_part_of(x, derived, need_attr, popped) for x in e.elts)
+    return False
+
+
 def check_other_loops(run: Run, pmodel: ParserModel) -> None:
     run.rule("R20.1b", "every while loop outside tokenize's main loop and the Parser's token loops has a recognised termination argument (monotone bounded counter, shrinking string, streaming read, fresh-name search); no for loop appends to the collection it iterates", 8)
     parser_cls = pmodel.cls
@@ -761,7 +832,7 @@ def check_other_loops(run: Run, pmodel: ParserModel) -> None:
                     continue  # R20.1
                 ok, why = counter_loop_ok(cfg, head.id)
                 if not ok:
-                    for rec in (_shrinking_string_loop, _stream_loop, _fresh_name_loop, _find_next_loop):
+                    for rec in (_shrinking_string_loop, _stream_loop, _fresh_name_loop, _find_next_loop, _worklist_loop):
                         w = rec(loop)
                         if w:
                             ok, why = True, w
